@@ -26,6 +26,50 @@ def scan():
     t["is_reference_literal"] = int(m.group(1)) if m else None
     m = re.search(r"pub struct StringViewInline \{[^}]*?pub inline: \[u8; (\d+)\]", s, re.S)
     t["inline_buffer_len"] = int(m.group(1)) if m else None
+    # the PREDICATES as written, site by site: (operator, right-hand side) of every length test that decides between
+    # the inline and the reference representation.  operator code: 0 `<`, 1 `<=`, 2 `>`, 3 `>=`
+    consts = {"MAX_INLINE_LEN": t["max_inline_len"]}
+
+    def pred(name, m):
+        ops = {"<": 0, "<=": 1, ">": 2, ">=": 3}
+        if not m:
+            t[name + "_op"], t[name + "_rhs"] = None, None
+            return
+        rhs = m.group(2)
+        t[name + "_op"] = ops[m.group(1)]
+        t[name + "_rhs"] = int(rhs) if rhs.isdigit() else consts.get(rhs)
+
+    def impl_block(ty):
+        m = re.search(r"\nimpl %s \{" % ty, s)
+        if not m:
+            return ""
+        i = m.end() - 1
+        depth, j = 0, i
+        while j < len(s):
+            if s[j] == "{":
+                depth += 1
+            elif s[j] == "}":
+                depth -= 1
+                if depth == 0:
+                    return s[i:j + 1]
+            j += 1
+        return ""
+
+    cmp_re = r"\s*(<=|>=|<|>)\s*([A-Za-z_0-9]+)"
+    for ty, px in (("StringView", "sv"), ("StringPtr", "sp")):
+        blk = impl_block(ty)
+        pred(px + "_is_inline", re.search(r"fn is_inline\(&self\) -> bool \{[^}]*?self\.inline\.len" + cmp_re, blk, re.S))
+        pred(px + "_is_reference", re.search(r"fn is_reference\(&self\) -> bool \{[^}]*?self\.inline\.len" + cmp_re, blk, re.S))
+        pred(px + "_new_inline_assert", re.search(r"fn new_inline\([^)]*\) -> Self \{\s*let len = data\.len\(\);\s*assert!\(len" + cmp_re + r"\)", blk, re.S))
+        pred(px + "_new_reference_assert", re.search(r"fn new_reference\([^)]*\) -> Self \{\s*let len = data\.len\(\);\s*assert!\(len" + cmp_re + r"\)", blk, re.S))
+    ab = _read("arrays/array/array_buffer.rs")
+    pred("array_push_inline", re.search(r"if value\.len\(\)" + cmp_re + r"\s*\{\s*Ok\(StringView::new_inline\(value\)\)", ab))
+    # the row writer and the heap sizing take the reference path on `!view.is_inline()` (StringView's predicate)
+    rl = _read("arrays/row/row_layout.rs")
+    t["row_writer_uses_view_is_inline"] = len(re.findall(r"if !view\.is_inline\(\) \{", rl)) or None
+    # compute_heap_sizes tests the validity of the SELECTED row
+    m = re.search(r"pub fn compute_heap_sizes.*?for \(output, row\) in rows\.into_iter\(\)\.enumerate\(\) \{\s*if array\.validity\.is_valid\(row\) \{\s*let sel = buffer\.selection\.get\(row\)", rl, re.S)
+    t["heap_sizes_validity_by_selected_row"] = 1 if m else None
     sl = _read("arrays/sort/sort_layout.rs")
     m = re.search(r"pub const ROW_INDEX_WIDTH: usize = std::mem::size_of::<u(\d+)>\(\);", sl)
     t["row_index_width"] = int(m.group(1)) // 8 if m else None
